@@ -302,6 +302,8 @@ type exSpec struct {
 	ReadBuf     int         `json:"read_buf"`
 	Retry       bool        `json:"retry,omitempty"`
 	Clone       bool        `json:"clone,omitempty"`       // the exchange runs on client.Clone(); the original's dump is switched off first
+	CloneKeep   bool        `json:"clone_keep,omitempty"`  // ... unless this is set: the original keeps dumping too (two live dumpers)
+	ForceAsync  bool        `json:"force_async,omitempty"` // the client-level dumper is asynchronous and its first write is slow
 	ManualRead  int         `json:"manual_read,omitempty"` // > 0: auto-read off, the caller Reads resp.Body with a buffer of this size
 	Interactive []int       `json:"interactive,omitempty"` // streamed upload: part sizes; part i is produced only after the origin has received part i-1
 	After       bool        `json:"after,omitempty"`       // a plain GET without dumper of its own follows on the same client
@@ -510,6 +512,10 @@ func genExchange(rng *hk.Rand) exSpec {
 	if rng.Chance(15) {
 		e.Clone = true
 		shape += "+clone"
+		if rng.Chance(50) {
+			e.CloneKeep = true
+			shape += "+keep"
+		}
 	}
 	if rng.Chance(15) {
 		e.After = true
@@ -831,7 +837,11 @@ func runClient(c *req.Client, url string, ex exSpec, id string, cfg *dumpCfg, wc
 		// a clone of a dumping client dumps on its own (own Dumper, started by Clone) to the same
 		// writers; switching the original's dump off afterwards must not silence it
 		cl := c.Clone()
-		c.DisableDumpAll()
+		if ex.CloneKeep {
+			defer c.DisableDumpAll()
+		} else {
+			c.DisableDumpAll()
+		}
 		c = cl
 	}
 	rq := c.R().SetHeader("X-Case", id)
@@ -868,8 +878,8 @@ func runClient(c *req.Client, url string, ex exSpec, id string, cfg *dumpCfg, wc
 		bodyClosed = make(chan struct{})
 		rq.SetBody(&notifyBody{Reader: bytes.NewReader(ex.body), ch: bodyClosed})
 	}
-	if cfg != nil && cfg.Request != nil {
-		rq.SetDumpOptions(cfg.Request.build(1, s)).EnableDump()
+	if cfg != nil {
+		applyReqOps(rq, cfg.ReqOps, s)
 	}
 	if ex.Warm {
 		// same client, same connection afterwards; its own request-level dumper (level 2) must see
@@ -1219,8 +1229,9 @@ func h1PairsGen(r *hk.Run, rng *hk.Rand, count int, gen func(*hk.Rand) exSpec) {
 		if ex.Retry && cfg.Request != nil {
 			// Request.do resets the request's own dump buffer before a retry (documented: the
 			// buffer holds the last attempt); keep an explicit Output so every attempt is observed
-			cfg.Request.Set[slotOut] = true
+			cfg.forceRequestOutput()
 		}
+		forceCfg(&cfg, ex, rng, r)
 		// an exchange that fails WITHOUT dump (or hangs / times out on a loaded machine) is not
 		// the dump's doing: such a pair is repeated (same exchange, same configuration) and only
 		// the last attempt is judged
@@ -1365,6 +1376,7 @@ func h1PairsGen(r *hk.Run, rng *hk.Rand, count int, gen func(*hk.Rand) exSpec) {
 		}
 		nt := cfg.anyOn() && (ex.BodyLen > 0 || ex.Resps[len(ex.Resps)-1].BodyLen > 0 || len(ex.Resps) > 1 || strings.Contains(ex.Shape, "longhdr") || ex.ReadBuf != 0)
 		emitExch(r, cfg, coqX, xs, on.Sink, pl, map[string]interface{}{"kind": "h1", "exchange": ex, "dump": cfg}, "h1|"+keyOf(in), nt)
+		emitReqOps(r, cfg, in)
 	}
 }
 
@@ -1404,3 +1416,38 @@ func genH1Interactive(rng *hk.Rand) exSpec {
 func h1InteractivePairs(r *hk.Run, rng *hk.Rand, count int) {
 	h1PairsGen(r, rng, count, genH1Interactive)
 }
+
+// forceCfg: scenario-specific demands on the dump configuration
+func forceCfg(cfg *dumpCfg, ex exSpec, rng *hk.Rand, r *hk.Run) {
+	if ex.ForceAsync {
+		if cfg.Client == nil {
+			o := genOpt(rng, 0, r)
+			cfg.Client = &o
+		}
+		cfg.Client.Async, cfg.Client.SlowFirst, cfg.Client.Slow = true, true, false
+		if !cfg.anyOnClient() {
+			cfg.Client.On = [4]bool{true, true, true, true}
+		}
+	}
+}
+
+func (c dumpCfg) anyOnClient() bool {
+	return c.Client != nil && (c.Client.On[0] || c.Client.On[1] || c.Client.On[2] || c.Client.On[3])
+}
+
+// genCloneAsync: an ordinary exchange on a clone of a client whose asynchronous client-level dump
+// keeps running on the original as well; the first dump write is slow (two drainers on one queue
+// would let the following writes overtake it)
+func genCloneAsync(rng *hk.Rand) exSpec {
+	for {
+		ex := genExchange(rng)
+		if ex.Expect || ex.Retry || ex.ManualRead > 0 {
+			continue
+		}
+		ex.Clone, ex.CloneKeep, ex.ForceAsync = true, true, true
+		ex.Shape = "clone-keep-async+" + strings.Replace(strings.Replace(ex.Shape, "+clone", "", 1), "+keep", "", 1)
+		return ex
+	}
+}
+
+func h1CloneAsyncPairs(r *hk.Run, rng *hk.Rand, count int) { h1PairsGen(r, rng, count, genCloneAsync) }
